@@ -70,6 +70,7 @@ type vLog struct {
 	fileDone  int // "linting file <uri> done"  (a workspace job has been enqueued before this line)
 	fileFail  int // "failed to update module for" / "failed to update file diagnostics"
 	wsDrop    int // "rate limiting aggregate reports"
+	anyDrop   int // any "rate limiting ..." line (whatever the code under test calls what it drops)
 	wsStart   int // "linting workspace: ..."
 	wsDone    int // "linting workspace done"
 	wsCfg     int // workspace runs started for a "config file changed" / "config file dropped" job
@@ -87,6 +88,10 @@ func (v *vLog) Write(p []byte) (int, error) {
 	defer v.mu.Unlock()
 
 	v.lastWrite = time.Now()
+
+	if strings.HasPrefix(s, "rate limiting") {
+		v.anyDrop++
+	}
 
 	switch {
 	case strings.HasPrefix(s, "linting file ") && strings.HasSuffix(s, " done"):
@@ -1274,5 +1279,455 @@ func TestVerifC15Oracle(t *testing.T) {
 
 	if err := os.WriteFile(out, ob, 0o644); err != nil {
 		t.Fatal(err)
+	}
+}
+
+// ---------------------------------------------------------------------------------- forced interleaving: removal during the lint
+
+// vRaceJob: a document large enough for its lint to take long is handed to the file-lint worker (Trigger), and while
+// the worker is inside linter.Lint for it (the debug log shows the job started and not finished, the cache holds the
+// parse results of the new contents) the file is removed (Removal: delete | rename).  At quiescence nothing may be
+// left of the removed URI's diagnostics: not in the last publish, not in the cache.  Model-free predicate; the
+// interleaving is forced by waiting on observable state, never by sleeping for the lint to "probably" run.
+type vRaceJob struct {
+	ID      int    `json:"id"`
+	Trigger string `json:"trigger"` // change | open | create
+	Removal string `json:"removal"` // delete | rename
+	Rules   int    `json:"rules"`
+	Clean   bool   `json:"clean"` // the big document has no violations of its own besides the unavoidable ones
+	// results
+	Reached       bool     `json:"reached"`        // the worker was seen inside the lint before the removal was sent
+	Achieved      bool     `json:"achieved"`       // ... and was still inside after the removal had been handled
+	GonePublished []string `json:"gone_published"` // last publish for the removed URI (canonical), must be empty
+	GoneCached    int      `json:"gone_cached"`    // diagnostics cached for the removed URI, must be 0
+	GoneParseErrs int      `json:"gone_parse_errors"`
+	GoneAggs      bool     `json:"gone_aggregates"` // aggregates of the removed URI are back (the OPEN delete-race finding)
+	LintMs        int64    `json:"lint_ms"`
+	Error         string   `json:"error,omitempty"`
+	LogTail       []string `json:"log_tail,omitempty"`
+}
+
+func vBigDoc(pkg string, n int, clean bool) string {
+	var b strings.Builder
+
+	b.WriteString("package " + pkg + "\n\n")
+
+	for i := range n {
+		if clean {
+			fmt.Fprintf(&b, "rule_%d := %d\n\n", i, i)
+		} else {
+			fmt.Fprintf(&b, "rule_%d = %d\n\n", i, i)
+		}
+	}
+
+	return b.String()
+}
+
+func vRunRace(job vRaceJob) (res vRaceJob) {
+	res = job
+
+	victim := "victim.rego"
+	files := map[string]string{
+		vAnchorName: vAnchorText,
+		"keep.rego": "package keep\n\nimport data.victim\n\nx := victim.rule_0\n",
+	}
+
+	if job.Trigger == "change" {
+		files[victim] = "package victim\n\nrule_0 := 0\n"
+	}
+
+	s, err := vNewServer(files, false)
+	if err != nil {
+		res.Error = "setup: " + err.Error()
+
+		return res
+	}
+
+	defer s.close()
+
+	fail := func(what string, err error) vRaceJob {
+		res.Error = what + ": " + err.Error()
+		res.LogTail = s.log.tail(60)
+
+		return res
+	}
+
+	if err := s.initialize(); err != nil {
+		return fail("initialize", err)
+	}
+
+	if err := s.waitIdle(vIdleTimeout); err != nil {
+		return fail("idle after initialize", err)
+	}
+
+	w := &vWorld{cur: map[string]string{}}
+	for k, v := range files {
+		w.cur[k] = v
+	}
+
+	big := vBigDoc("victim", job.Rules, job.Clean)
+	uri := s.uri(victim)
+	before := s.log.snapshot()
+	ev := vEvent{Op: job.Trigger, File: victim, Text: big}
+
+	if err := s.deliver(ev, w, false); err != nil {
+		return fail("deliver trigger", err)
+	}
+
+	w.apply(ev)
+
+	// wait until the file-lint worker has started a job after the trigger, the parse results of the new contents are in
+	// the cache, and the job has not finished: the worker is then in (or about to enter) linter.Lint
+	want := len(strings.Split(big, "\n"))
+	inJob := func() bool {
+		c := s.log.snapshot()
+
+		return c.FileStart > before.FileStart && c.FileStart > c.FileDone+c.FileFail
+	}
+
+	t0 := time.Now()
+	deadline := t0.Add(vIdleTimeout)
+
+	for {
+		n, ok := s.ls.cache.GetSuccessfulParseLineCount(uri)
+		if ok && n == want && len(s.ls.cache.GetFileRefs(uri)) > job.Rules && inJob() {
+			res.Reached = true
+
+			break
+		}
+
+		c := s.log.snapshot()
+		if c.FileDone+c.FileFail > before.FileDone+before.FileFail && len(s.ls.lintFileJobs) == 0 && !inJob() {
+			break // the job is already over: the interleaving was not obtained (reported, not a failure)
+		}
+
+		if time.Now().After(deadline) {
+			return fail("waiting for the lint to start", fmt.Errorf("time-out"))
+		}
+
+		time.Sleep(time.Millisecond)
+	}
+
+	time.Sleep(40 * time.Millisecond) // the rest of updateParse (store update) is short; the lint takes far longer
+
+	var rm vEvent
+	if job.Removal == "rename" {
+		rm = vEvent{Op: "rename", File: victim, To: "moved.rego"}
+	} else {
+		rm = vEvent{Op: "delete", File: victim}
+	}
+
+	stillBefore := inJob()
+
+	if err := s.deliver(rm, w, false); err != nil {
+		return fail("deliver removal", err)
+	}
+
+	w.apply(rm)
+
+	if err := s.barrier(); err != nil {
+		return fail("barrier", err)
+	}
+
+	res.Achieved = res.Reached && stillBefore && inJob()
+	res.LintMs = time.Since(t0).Milliseconds()
+
+	s.inexact = true // the straddling job is outside the accounting of the job-atomic model: quiescence by stability
+
+	if err := s.waitIdle(vIdleTimeout); err != nil {
+		return fail("idle at end", err)
+	}
+
+	res.GonePublished = s.published()[victim]
+	if res.GonePublished == nil {
+		res.GonePublished = []string{}
+	}
+
+	if ds, ok := s.ls.cache.GetFileDiagnostics(uri); ok {
+		res.GoneCached = len(ds)
+	}
+
+	if ds, ok := s.ls.cache.GetParseErrors(uri); ok {
+		res.GoneParseErrs = len(ds)
+	}
+
+	res.GoneAggs = len(s.ls.cache.GetFileAggregates(uri)) > 0 // aggregates stored under the removed URI
+
+	if len(res.GonePublished) > 0 || res.GoneCached > 0 {
+		res.LogTail = s.log.tail(40)
+	}
+
+	return res
+}
+
+// TestVerifC15LintRace runs the scenarios of $VERIF_IN (JSON list of vRaceJob) and writes one result per line.
+func TestVerifC15LintRace(t *testing.T) {
+	in, out := os.Getenv("VERIF_IN"), os.Getenv("VERIF_OUT")
+	if in == "" || out == "" {
+		t.Skip("VERIF_IN / VERIF_OUT not set")
+	}
+
+	vHermeticHome()
+
+	var jobs []vRaceJob
+
+	bs, err := os.ReadFile(in)
+	if err != nil {
+		t.Fatal(err)
+	}
+
+	if err := json.Unmarshal(bs, &jobs); err != nil {
+		t.Fatal(err)
+	}
+
+	results := vParallel(len(jobs), vWorkers(), func(i int) vRaceJob { return vRunRace(jobs[i]) })
+
+	f, err := os.Create(out)
+	if err != nil {
+		t.Fatal(err)
+	}
+
+	defer f.Close()
+
+	for _, r := range results {
+		b, _ := json.Marshal(r)
+		_, _ = f.Write(append(b, '\n'))
+	}
+}
+
+// ---------------------------------------------------------------------------------- burst: config change while the limiter is dropping
+
+// vBurstJob: a sustained stream of cheap events (workspace/didDeleteFiles notifications back to back, each of which
+// makes the handler queue an aggregate report) keeps more than half of the run queue of the workspace-lint worker
+// occupied, so that the dispatcher's rate limiter is dropping jobs; in the middle of it the config file changes.
+// The stream is kept up until the run for the config change has started (the job of the config worker is a FULL lint
+// and must never be dropped) or a generous time has passed.  At quiescence the last publishes must be those of a fresh
+// lint under the new config.  Model-free predicate.
+type vBurstJob struct {
+	ID      int  `json:"id"`
+	TurnOff bool `json:"turn_off"` // the change turns use-assignment-operator off (else: on again)
+	// results
+	DropsBefore int                 `json:"drops_before_config"` // jobs dropped by the limiter before the config was loaded
+	DropsAfter  int                 `json:"drops_after_config"`  // ... between that and the end of the stream
+	CfgRuns     int                 `json:"config_runs"`         // workspace runs started for a "config file ..." job
+	Sent        int                 `json:"events_sent"`
+	Published   map[string][]string `json:"published"`
+	Fresh       map[string][]string `json:"fresh"`
+	Error       string              `json:"error,omitempty"`
+	LogTail     []string            `json:"log_tail,omitempty"`
+}
+
+func (v *vLog) drops() int {
+	v.mu.Lock()
+	defer v.mu.Unlock()
+
+	return v.anyDrop
+}
+
+func vRunLimiterBurst(job vBurstJob) (res vBurstJob) {
+	res = job
+
+	const (
+		cfgBase = "rules:\n  idiomatic:\n    directory-package-mismatch:\n      level: ignore\n"
+		cfgOff  = cfgBase + "  style:\n    use-assignment-operator:\n      level: ignore\n"
+		rule    = "use-assignment-operator"
+	)
+
+	cfgA, cfgB := cfgBase, cfgOff
+	if !job.TurnOff {
+		cfgA, cfgB = cfgOff, cfgBase
+	}
+
+	docs := map[string]string{
+		vAnchorName:  vAnchorText,
+		"main.rego":  "package main\n\nallow = true\n",
+		"other.rego": "package other\n\nimport data.main\n\nx := main.allow\n",
+	}
+
+	files := map[string]string{".regal/config.yaml": cfgA}
+	for k, v := range docs {
+		files[k] = v
+	}
+
+	s, err := vNewServer(files, false)
+	if err != nil {
+		res.Error = "setup: " + err.Error()
+
+		return res
+	}
+
+	defer s.close()
+
+	s.inexact = true
+
+	fail := func(what string, err error) vBurstJob {
+		res.Error = what + ": " + err.Error()
+		res.LogTail = s.log.tail(60)
+
+		return res
+	}
+
+	if err := s.initialize(); err != nil {
+		return fail("initialize", err)
+	}
+
+	if err := s.waitIdle(vIdleTimeout); err != nil {
+		return fail("idle after initialize", err)
+	}
+
+	hasRule := func() bool { return slices.Contains(s.ls.getEnabledNonAggregateRules(), rule) }
+	if hasRule() != job.TurnOff {
+		return fail("setup", fmt.Errorf("initial config not loaded as expected"))
+	}
+
+	stop := make(chan struct{})
+	done := make(chan int)
+
+	go func() {
+		n := 0
+
+		for {
+			select {
+			case <-stop:
+				done <- n
+
+				return
+			default:
+			}
+
+			_ = vBounded(vCallTimeout, func() error {
+				return s.conn.Notify(s.ctx, "workspace/didDeleteFiles", types.WorkspaceDidDeleteFilesParams{
+					Files: []types.WorkspaceDidDeleteFilesParamsDeletedFile{{URI: s.uri(fmt.Sprintf("ghost_%d.rego", n))}},
+				})
+			})
+
+			n++
+
+			// no pause: the pipe is synchronous, so the stream runs at the pace of the server's read loop and the run
+			// queue is refilled within microseconds of the worker taking a run from it
+		}
+	}()
+
+	finish := func() { close(stop); res.Sent = <-done }
+
+	// the limiter is dropping (if the code under test has no limiter any more, go on after a while)
+	for t0 := time.Now(); s.log.drops() == 0 && time.Since(t0) < 20*time.Second; {
+		time.Sleep(2 * time.Millisecond)
+	}
+
+	before := s.log.snapshot()
+
+	cp := filepath.Join(s.dir, ".regal", "config.yaml")
+	if err := os.WriteFile(cp, []byte(cfgB), 0o644); err != nil {
+		finish()
+
+		return fail("write config", err)
+	}
+
+	select {
+	case s.ls.configWatcher.Reload <- cp:
+		s.cfgEvents++
+	case <-time.After(vCallTimeout):
+		finish()
+
+		return fail("config", fmt.Errorf("config worker does not take the reload event"))
+	}
+
+	for t0 := time.Now(); hasRule() == job.TurnOff; {
+		if time.Since(t0) > vCallTimeout {
+			finish()
+
+			return fail("config", fmt.Errorf("the new config was not loaded"))
+		}
+
+		time.Sleep(2 * time.Millisecond)
+	}
+
+	res.DropsBefore = s.log.drops()
+
+	// keep the stream up until the run for the config change has started
+	for t0 := time.Now(); s.log.snapshot().WsCfg == before.WsCfg && time.Since(t0) < 15*time.Second; {
+		time.Sleep(5 * time.Millisecond)
+	}
+
+	finish()
+
+	res.DropsAfter = s.log.drops() - res.DropsBefore
+
+	if err := s.waitIdle(vIdleTimeout); err != nil {
+		return fail("idle at end", err)
+	}
+
+	res.CfgRuns = s.log.snapshot().WsCfg - before.WsCfg
+	res.Published = map[string][]string{}
+
+	for name, ds := range s.published() {
+		if _, ok := docs[name]; ok {
+			res.Published[name] = ds
+		}
+	}
+
+	cfg, err := vLoadConfig(cfgB)
+	if err != nil {
+		return fail("reference config", err)
+	}
+
+	if res.Fresh, err = vFresh(s.ctx, s.dir, docs, cfg); err != nil {
+		return fail("fresh", err)
+	}
+
+	if !vSameDiags(res.Published, res.Fresh) {
+		res.LogTail = s.log.tail(40)
+	}
+
+	return res
+}
+
+func vSameDiags(a, b map[string][]string) bool {
+	if len(a) != len(b) {
+		return false
+	}
+
+	for k, x := range a {
+		if !slices.Equal(x, b[k]) {
+			return false
+		}
+	}
+
+	return true
+}
+
+// TestVerifC15LimiterBurst runs the scenarios of $VERIF_IN (JSON list of vBurstJob) and writes one result per line.
+func TestVerifC15LimiterBurst(t *testing.T) {
+	in, out := os.Getenv("VERIF_IN"), os.Getenv("VERIF_OUT")
+	if in == "" || out == "" {
+		t.Skip("VERIF_IN / VERIF_OUT not set")
+	}
+
+	vHermeticHome()
+
+	var jobs []vBurstJob
+
+	bs, err := os.ReadFile(in)
+	if err != nil {
+		t.Fatal(err)
+	}
+
+	if err := json.Unmarshal(bs, &jobs); err != nil {
+		t.Fatal(err)
+	}
+
+	results := vParallel(len(jobs), vWorkers(), func(i int) vBurstJob { return vRunLimiterBurst(jobs[i]) })
+
+	f, err := os.Create(out)
+	if err != nil {
+		t.Fatal(err)
+	}
+
+	defer f.Close()
+
+	for _, r := range results {
+		b, _ := json.Marshal(r)
+		_, _ = f.Write(append(b, '\n'))
 	}
 }
